@@ -341,6 +341,8 @@ def run(repo, rep, tier):
                                     stmt=f"entries: {state}/{qlabel}")
 
     # ---------------- R2.5 Bag: every numeric key (component) is NaN-normalised before it indexes the value-to-weight map
+    datum_forwarding_rule(repo, rep, prims, "fill")
+    index_inverts_edges_rule(repo, rep)
     r5 = rep.rule("R2.5", "Bag fill path: numeric key components pass through the NaN-normalising converter (NaN is not equal to itself as a dict key)", floor=2)
     bag_key_normalisation(repo, rep, r5, "R2.5")
 
@@ -435,3 +437,107 @@ def bag_key_normalisation(repo, rep, r5, rule):
                         stmt=f"bag key without NaN normalisation: {norm(n)[:50]}")
     if nconv == 0:
         raise AnalysisError(f"{fn.qualname}: no numeric conversion of the Bag key found (floatOrNan expected)")
+
+
+def datum_forwarding_rule(repo, rep, prims, method="fill"):
+    """R2.6 / R3.11: a sub-aggregator computes its own quantity from the record: every child fill must be handed the caller's
+    datum itself (fill) / the caller's data (`_numpy`; or `None` for a pre-summed Count, or a row-selection `data[mask]`), never a
+    value derived from it such as the parent's quantity."""
+    rid = "R2.6" if method == "fill" else "R3.11"
+    r = rep.rule(rid, f"every child {method} is handed the caller's {'datum' if method == 'fill' else 'data'} itself, not a value derived from it", floor=15)
+    from ..astutil import walk_local_stmt as _walk
+    for c in prims:
+        f = repo.own_method(c, method)
+        if len(f.params) < 2:
+            continue
+        dparam = f.params[1]
+        sn = f.params[0]
+        # plain aliases of the record (`record = datum`)
+        aliases = {dparam}
+        for st in _walk(f.node):
+            if isinstance(st, ast.Assign) and len(st.targets) == 1 and isinstance(st.targets[0], ast.Name) and isinstance(st.value, ast.Name) and st.value.id in aliases:
+                aliases.add(st.targets[0].id)
+        for n in _walk(f.node):
+            if not (isinstance(n, ast.Call) and isinstance(n.func, ast.Attribute) and n.func.attr == method and n.args):
+                continue
+            recv = n.func.value
+            if isinstance(recv, ast.Name) and recv.id == sn:
+                continue            # self.fill(...) is not a child
+            if isinstance(recv, ast.Call) and isinstance(recv.func, ast.Name) and recv.func.id == "super":
+                continue
+            a0 = n.args[0]
+            ok = isinstance(a0, ast.Name) and a0.id in aliases
+            if not ok and isinstance(a0, ast.Constant) and a0.value is None:
+                ok = True           # a pre-summed amount for a Count (which ignores its first argument)
+            if not ok and method == "_numpy" and isinstance(a0, ast.Subscript) and isinstance(a0.value, ast.Name) and a0.value.id in aliases:
+                ok = True           # the rows of the batch selected by a mask
+            r.ob(ok, f"{f.qualname}: `{ast.unparse(n)[:60]}`")
+            if not ok:
+                rep.finding(rid, f, n, f"`{ast.unparse(n)[:80]}` hands the sub-aggregator `{ast.unparse(a0)[:40]}` instead of the record `{dparam}`: the "
+                            f"child's own quantity is then evaluated on a derived value (the parent's quantity), so whatever it accumulates is a "
+                            f"function of the wrong input (or raises) whenever its quantity differs from the identity", stmt=f"child {method}({ast.unparse(a0)[:30]}, ...)")
+
+
+def index_inverts_edges_rule(repo, rep):
+    """R2.7: the real-valued index that `bin(x)` takes the floor of is the inverse of the class's own edge function: at the lower
+    edge of bin K (first element of `range(K)`) it evaluates to K, as an identity of rational functions in the parameters.  With
+    that, floor(index(x)) is the bin whose documented interval [range(K)) contains x."""
+    from ..poly import formula
+    from ..loader import FuncInfo
+    from .c03 import _expand_properties, scalar_floor_exprs
+    r = rep.rule("R2.7", "the index formula of bin() inverts the edge function of range(): index(lowEdge(K)) == K", floor=2)
+
+    def opaque(e, env):
+        if isinstance(e.func, ast.Name) and e.func.id == "len" and len(e.args) == 1:
+            return Rat.sym("len(" + ast.unparse(e.args[0]).replace(" ", "") + ")")
+        raise Unsupported(f"call {ast.unparse(e)}")
+
+    for cname in ("Bin", "SparselyBin"):
+        c = repo.cls(cname)
+        b, rg = repo.lookup(c, "bin"), repo.lookup(c, "range")
+        if not (isinstance(b, FuncInfo) and isinstance(rg, FuncInfo)):
+            raise AnalysisError(f"{cname}.bin / {cname}.range not found")
+        fl = scalar_floor_exprs(b)
+        if not fl:
+            continue
+        # range(): first element of the returned tuple, locals expanded
+        defs = {}
+        for st in walk_local_stmt(rg.node):
+            if isinstance(st, ast.Assign) and len(st.targets) == 1 and isinstance(st.targets[0], ast.Name):
+                defs.setdefault(st.targets[0].id, []).append(st.value)
+
+        def expand(e, depth=0):
+            class X(ast.NodeTransformer):
+                def visit_Name(self, n):
+                    if isinstance(n.ctx, ast.Load) and n.id not in rg.params and len(defs.get(n.id, [])) == 1 and depth < 4:
+                        return expand(defs[n.id][0], depth + 1)
+                    return n
+            return X().visit(copy.deepcopy(e))
+        rets = [n.value for n in walk_local_stmt(rg.node) if isinstance(n, ast.Return) and n.value is not None]
+        lows = []
+        for v in rets:
+            v = expand(v)
+            if isinstance(v, ast.Tuple) and len(v.elts) == 2:
+                lows.append(v.elts[0])
+        if not lows:
+            raise AnalysisError(f"{cname}.range does not return a (low edge, high edge) tuple")
+        kparam = rg.params[1]
+        sn_r, sn_b = rg.params[0], b.params[0]
+        for node, e in fl:
+            try:
+                idx = formula(_expand_properties(repo, c, e, {sn_b}), {}, opaque)
+                ok_any = False
+                for low in lows:
+                    lo = formula(_expand_properties(repo, c, low, {sn_r}), {}, opaque)
+                    if sn_r != sn_b:
+                        lo = lo.rename({s0: s0.replace(sn_r + ".", sn_b + ".", 1) for s0 in lo.symbols() if s0.startswith(sn_r + ".")})
+                    got = idx.subst({"X": lo})
+                    if got.equals(Rat.sym(kparam)):
+                        ok_any = True
+            except Unsupported as ex:
+                raise AnalysisError(f"{cname}.bin/range: {ex}")
+            r.ob(ok_any, f"{cname}: index(lowEdge({kparam})) == {kparam}")
+            if not ok_any:
+                rep.finding("R2.7", b, node, f"{cname}.bin takes the floor of `{ast.unparse(e)[:70]}`, which at the lower edge of bin {kparam} given by "
+                            f"{cname}.range() does not evaluate to {kparam}: data are stored under indexes that disagree with the documented "
+                            f"intervals (range/low/high) of the bins", stmt=f"{cname}: index formula does not invert range()")
